@@ -198,9 +198,9 @@ static void canon(void *vs, char *b, size_t n)
 }
 static void teardown(void *vs) { st_t *s = vs; SPIF_VECTOR_DEL(s->v); free(s); }
 
-/* ---- large vectors: sizes around 127/255/256/512 (thresholds where an implementation may switch strategy), three insertion orders,
+/* ---- large vectors: sizes around 127/255/256/512/1024/2048/4096 (thresholds where an implementation may switch strategy), three insertion orders,
  * then a new greatest, a new smallest, a duplicate of the greatest and a middle element; every element is looked up afterwards */
-static const int BIGN[] = { 126, 127, 128, 254, 255, 256, 257, 300, 511, 512, 513 };
+static const int BIGN[] = { 126, 127, 128, 254, 255, 256, 257, 300, 511, 512, 513, 1023, 1024, 1025, 1026, 2049, 4097 };
 #define NBIGN ((int) (sizeof BIGN / sizeof BIGN[0]))
 static void big_decode(uint64_t idx, int *cls, int *n, int *order) { *cls = (int) (idx % 3); idx /= 3; *order = (int) (idx % 3); idx /= 3; *n = BIGN[idx % NBIGN]; }
 static void big_desc(uint64_t idx, void *ctx, char *b, size_t n_)
@@ -216,7 +216,7 @@ static void big_case(uint64_t idx, void *ctx)
     CLS = cls;
     char shape[64]; snprintf(shape, sizeof shape, "%d keys", n); mc_set_shape(shape);
     spif_vector_t v = new_vec();
-    static char names[600][12]; const char *model[600]; int m = 0;
+    static char names[4200][12]; const char *model[4200]; int m = 0;
     for (int i = 0; i < n; i++) { int k = order == 0 ? i : (order == 1 ? n - 1 - i : (i % 2 ? n - 1 - i / 2 : i / 2)); snprintf(names[m], sizeof names[m], "k%05d", 2 * k + 10); model[m] = names[m]; SPIF_VECTOR_INSERT(v, S_(names[m])); m++; }
     static const char *extra_fmt[4] = { "k%05d", "k%05d", "k%05d", "k%05d" };
     int extra_key[4] = { 2 * n + 20, 0, 2 * n + 20, n + 11 };          /* new greatest, new smallest, duplicate of the (new) greatest, an odd key in the middle */
@@ -238,6 +238,18 @@ static void big_case(uint64_t idx, void *ctx)
     /* removal hands each element back exactly once, from both ends and the middle */
     { const char *rm[3] = { model[0], model[m - 1], model[m / 2] };
       for (int r = 0; r < 3; r++) { spif_obj_t p = S_(rm[r]); spif_obj_t g = SPIF_VECTOR_REMOVE(v, p); if (!g || !is_str(g, rm[r])) FAIL(site("remove"), "model:return", shape, "remove(\"%s\") did not hand back an equal element", rm[r]); if (g) SPIF_OBJ_DEL(g); SPIF_OBJ_DEL(p); } }
+    /* the history goes on after the removals: the three come back, and a new greatest, smallest and middle key join (whatever the removal did to the storage, the next inserts build on it) */
+    { int extra2[6] = { 2 * (m / 2), 0, 0, 2 * n + 40, 1, n + 13 }; const char *back[3] = { model[0], model[m - 1], model[m / 2] }; (void) extra2;
+      static char n2[6][12]; int m2 = 0; const char *model2[4200];
+      for (int i = 0; i < m; i++) model2[m2++] = model[i];
+      for (int r = 0; r < 3; r++) SPIF_VECTOR_INSERT(v, S_(back[r]));
+      int keys[3] = { 2 * n + 40, 1, n + 13 };
+      for (int e = 0; e < 3; e++) { snprintf(n2[e], sizeof n2[e], "k%05d", keys[e]); model2[m2++] = n2[e]; SPIF_VECTOR_INSERT(v, S_(n2[e])); }
+      qsort(model2, (size_t) m2, sizeof model2[0], cmpstr);
+      if ((int) SPIF_VECTOR_COUNT(v) != m2) FAIL(site("count"), "model:return", shape, "count=%d after removing three, re-inserting them and inserting three more (%d expected)", (int) SPIF_VECTOR_COUNT(v), m2);
+      else { spif_obj_t *a = SPIF_VECTOR_TO_ARRAY(v);
+          if (!a) FAIL(site("to_array"), "model:return", shape, "to_array returned NULL");
+          else { for (int i = 0; i < m2; i++) if (!is_str(a[i], model2[i])) { FAIL(site("insert"), "model:order", shape, "after removals and further inserts position %d does not hold \"%s\"", i, model2[i]); break; } free(a); } } }
     SPIF_VECTOR_DEL(v);
     mc_nontrivial();
     mc_outcome((uint64_t) n * 9 + (uint64_t) order * 3 + (uint64_t) cls);
@@ -286,6 +298,6 @@ int main(int argc, char **argv)
         mc_e1_run(&sys, (int) mc_arg_int("depth", 40));
     }
     if (!only) mc_e2_level("element_classes", 1, 6, mx_case, mx_desc, NULL);
-    if (!only) mc_e2_level("large", 513, (uint64_t) 3 * 3 * NBIGN, big_case, big_desc, NULL);
+    if (!only) mc_e2_level("large", 4097, (uint64_t) 3 * 3 * NBIGN, big_case, big_desc, NULL);
     return mc_finish();
 }
